@@ -32,12 +32,88 @@ def scripts(env):
     return out
 
 
+# -- requests that never get as far as the wire (oracle only) ---------------------------------------------------------
+# "every request completes exactly once ... or with an error derived from the library's error base class": also the
+# request whose destination cannot be determined.  Only names that name resolution refuses before it asks anybody
+# (the IDNA step: empty label, label over 63 characters) are used, so that no resolver is involved.
+
+UNRESOLVABLE = ["a..b", "x" * 64 + ".example", ".lead", "a." + "b" * 64, "..", "a.b..c.example"]
+
+
+def unresolvable_cases():
+    return [{"level": "unresolvable", "host": h, "blockwise": bw, "code": c} for h in UNRESOLVABLE
+            for bw in (False, True) for c in (1, 3)]
+
+
+def run_unresolvable(case):
+    import asyncio
+    import time
+    import aiocoap
+    import netsim
+    import vloop
+
+    async def main(loop):
+        ctx, net = await netsim.make_context(loop)
+        msg = aiocoap.Message(code=aiocoap.Code(case["code"]), uri="coap://%s/x" % case["host"],
+                              payload=b"p" if case["code"] == 3 else b"")
+        req = ctx.request(msg, handle_blockwise=case["blockwise"])
+        done_calls = []
+        req.response.add_done_callback(lambda f: done_calls.append(1))
+        for _ in range(8000):                  # (name resolution runs in a thread: real time, not the virtual clock)
+            if req.response.done():
+                break
+            await asyncio.sleep(0)
+            time.sleep(0.0005)
+        for _ in range(5):
+            await asyncio.sleep(0)
+        fut = req.response
+        res = {"sent": len(net.sent), "done_calls": len(done_calls)}
+        if not fut.done():
+            res["outcome"] = "pending"
+        elif fut.cancelled():
+            res["outcome"] = "cancelled"
+        elif fut.exception() is not None:
+            res["outcome"] = "exception:" + ",".join(c.__name__ for c in type(fut.exception()).__mro__)
+        else:
+            res["outcome"] = "response"
+        await ctx.shutdown()
+        return res
+
+    res, loop = vloop.run(main)
+    res["loop_errors"] = [repr(c.get("exception") or c.get("message")) for c in loop.exceptions]
+    return res
+
+
+def oracle_unresolvable(case, res):
+    if res["outcome"] == "pending":
+        return f"hangs: the request to coap://{case['host']}/x never completed"
+    if not res["outcome"].startswith("exception:") or res["sent"]:
+        return f"the request to the unresolvable name {case['host']!r}: {res['outcome']}, {res['sent']} datagrams sent"
+    if "Error" not in res["outcome"].split(":")[1].split(","):
+        return (f"foreign-exception: the request to coap://{case['host']}/x ended with {res['outcome']}, which does not "
+                f"derive from aiocoap.error.Error")
+    if res["done_calls"] != 1:
+        return f"completed {res['done_calls']} times"
+    if res["loop_errors"]:
+        return f"loop-exception: {res['loop_errors'][0]}"
+    return ""
+
+
 def run(env, rep):
     env.import_repo()
     P.check_scripts(env, rep, "C02", scripts(env), P.oracle_c02,
                     lambda res: bool(P.responses(res)) and (bool(P.fails(res)) or any(
                         s["mtype"] == "RST" for s in P.sends(res))))
+    for case in unresolvable_cases():
+        rep.case(case)
+        rep.count("unresolvable")
+        verdict = oracle_unresolvable(case, run_unresolvable(case))
+        if verdict:
+            rep.oracle_fail(case, verdict, key="unresolvable:" + verdict.split(":")[0].split(" ")[0])
 
 
 def replay(env, case):
+    if case.get("level") == "unresolvable":
+        env.import_repo()
+        return oracle_unresolvable(case, run_unresolvable(case))
     return replay_with(env, case, P.oracle_c02)
